@@ -29,7 +29,21 @@ func initEnv(c *core.Ctx) {
 	h, err := vdb.Open(vdb.Options{Config: gorm.Config{DisableForeignKeyConstraintWhenMigrating: true}})
 	must(err)
 	must(h.DB.SetupJoinTable(&User{}, "Clubs", &Membership{}))
-	must(h.DB.AutoMigrate(allModels...))
+	for g, ms := range modelGroups {
+		if err := h.DB.AutoMigrate(ms...); err != nil {
+			if g == "" {
+				panic(err)
+			}
+			setupErr[g] = err
+		}
+	}
+	for _, s := range specs {
+		if s.group != "" && s.store == joinRows && setupErr[s.group] == nil {
+			if err := s.resolveJoin(h.DB); err != nil {
+				setupErr[s.group] = err
+			}
+		}
+	}
 	H = h
 }
 
@@ -64,6 +78,7 @@ type step struct {
 	byVal    bool // slice-level call on a []*Owner passed by value: db.Model(owners)
 	sliceLvl bool
 	none     bool // Append / Replace that names no target at all: no argument, or only empty / nil slices
+	via      int  // how the association handle of the call is obtained (viaChain ...)
 	owners   []*ownerVal
 	args     []arg
 	call     string
@@ -319,6 +334,7 @@ type kase struct {
 	newSeq   int
 	calls    []string
 	seedDump map[string]interface{}
+	seedErr  string
 	shape    []string
 	changes  int
 }
@@ -330,6 +346,7 @@ func (k *kase) seed() {
 		must(err)
 	}
 	H.SQL.Exec("DELETE FROM sqlite_sequence")
+	s.surr = nil
 	k.m = &model{spec: s, links: map[string]map[string]bool{}, recs: map[string]string{}, soft: map[string]bool{}}
 	// owners
 	var opool, tpool []string
@@ -349,7 +366,7 @@ func (k *kase) seed() {
 	} else {
 		p := r.Perm(4)
 		for i := 0; i < 4; i++ {
-			k.owners = append(k.owners, okey("users", fmt.Sprint(p[i]+1)))
+			k.owners = append(k.owners, okey(s.ownerTab, fmt.Sprint(p[i]+1)))
 		}
 	}
 	all := append([]string(nil), k.owners...)
@@ -412,7 +429,15 @@ func (k *kase) seed() {
 	}
 	for _, o := range all {
 		for _, t := range sortedKeys(k.m.links[o]) {
-			s.insLink(o, t)
+			if err := s.tryLink(o, t); err != nil {
+				if s.store == joinRows && s.group != "" {
+					// the generated join table refuses a link set the property quantifies over (a record
+					// linked to two owners, an owner linked to two records)
+					k.seedErr = fmt.Sprintf("raw-SQL insert of the join row (%s, %s) into %s, links so far %v: %v", o, t, s.jt, s.readLinks(), err)
+					return
+				}
+				panic(err)
+			}
 		}
 	}
 	// what earlier removals left behind without being links (see insLeftover)
@@ -553,7 +578,7 @@ func (k *kase) pickTargets(o string, n int, forDelete bool, allowNew bool, avoid
 		if forDelete {
 			weighted = []string{"linked", "linked", "linked", "linked", "linked", "free", "other", "other", "dup", "absent"}
 		}
-		avail := map[string]bool{"new": allowNew && (!k.spec.assigned || len(k.universe) > 0), "newkey": allowNew && !k.spec.assigned && !k.spec.softJoin,
+		avail := map[string]bool{"new": allowNew && (!k.spec.assigned || len(k.universe) > 0), "newkey": allowNew && !k.spec.assigned && !k.spec.softJoin && !k.spec.noNewKey,
 			"gone": allowNew && len(gone) > 0, "absent": forDelete && (len(gone) > 0 || !k.spec.assigned || len(k.universe) > 0),
 			"free": len(free) > 0, "linked": len(linked) > 0, "other": len(other) > 0, "dup": len(dupCands) > 0}
 		var classes []string
@@ -793,6 +818,16 @@ func (k *kase) genStep(i int) *step {
 		}
 		st.args = k.splitArgs(ts, true)
 	}
+	// how the handle is obtained: mostly one chain; one scoped call in three goes through a handle from
+	// which an Unscoped() variant was derived before (the variant is a separate handle: the call stays
+	// scoped); one Unscoped call in four goes through Unscoped().Unscoped()
+	if st.unscoped {
+		if r.Chance(1, 4) {
+			st.via = viaTwice
+		}
+	} else if r.Chance(1, 3) {
+		st.via = viaSibling
+	}
 	// literal call
 	recv := st.owners[0].lit
 	if st.sliceLvl {
@@ -806,7 +841,13 @@ func (k *kase) genStep(i int) *step {
 		db = "db.Unscoped()"
 	}
 	call := fmt.Sprintf("%s.Model(%s).Association(%q)", db, recv, s.field)
+	if st.via == viaSibling {
+		call = "h := " + call + "; purge := h.Unscoped(); _ = purge; h"
+	}
 	if st.unscoped {
+		call += ".Unscoped()"
+	}
+	if st.via == viaTwice {
 		call += ".Unscoped()"
 	}
 	lits := []string{}
@@ -852,11 +893,26 @@ func (k *kase) assoc(recv interface{}, st *step) *gorm.Association {
 		db = db.Unscoped()
 	}
 	a := db.Model(recv).Association(k.spec.field)
+	if st != nil && st.via == viaSibling {
+		// the caller keeps a handle and derives an Unscoped() variant from it (for a later purge);
+		// the handle itself is then used for the - scoped - call
+		purge := a.Unscoped()
+		_ = purge
+	}
 	if st != nil && st.unscoped {
+		a = a.Unscoped()
+	}
+	if st != nil && st.via == viaTwice {
 		a = a.Unscoped()
 	}
 	return a
 }
+
+const (
+	viaChain   = iota // db.Model(v).Association(f)[.Unscoped()].Op(...)
+	viaSibling        // h := db.Model(v).Association(f); _ = h.Unscoped(); h.Op(...) - a scoped call
+	viaTwice          // db.Model(v).Association(f).Unscoped().Unscoped().Op(...)
+)
 
 // readUnscoped: Count / Find through db.Model(v).Association(f).Unscoped()
 var readUnscoped = &step{unscoped: true}
@@ -1148,7 +1204,20 @@ func (k *kase) checkState(st *step, eff *effect) []problem {
 
 func (k *kase) run() {
 	c, s := k.c, k.spec
+	if err := setupErr[s.group]; err != nil {
+		// the models of this kind could not be migrated (on the unchanged tree they can): no record of
+		// the relation can be saved, let alone linked
+		c.Inc("deviation_schema-setup-failed:" + s.name)
+		c.Violation("schema-setup-failed:"+s.name, map[string]interface{}{"relation": s.name, "call": "db.AutoMigrate(<models of group " + s.group + ">)", "observed": err.Error(), "expected": "no error: the join table / key columns of the relation are created"})
+		return
+	}
 	k.seed()
+	if k.seedErr != "" {
+		c.Inc("deviation_join-table-rejects-link-set:" + s.name)
+		c.Violation("join-table-rejects-link-set:"+s.name, map[string]interface{}{"relation": s.name, "observed": k.seedErr, "expected": "a many-to-many join table stores any set of (owner, record) pairs",
+			"links(owner->targets)": k.m.linkDump()})
+		return
+	}
 	c.Logf("CASE %d relation=%s mode=%s unscoped=%s seed=%v", c.Case, s.name, modeNames[k.mode], umNames[k.um], k.seedDump)
 	for _, l := range k.calls {
 		c.Logf("  %s", l)
@@ -1195,6 +1264,15 @@ func (k *kase) run() {
 		}
 		if st.byVal {
 			c.Inc("steps_on_owner_slice_passed_by_value")
+		}
+		switch st.via {
+		case viaSibling:
+			c.Inc("scoped_steps_through_a_handle_an_unscoped_variant_was_derived_from")
+			if s.deletesRecords() && st.op != "Count" && st.op != "Find" {
+				c.Inc("scoped_writes_through_such_a_handle_on_kinds_where_unscoped_deletes_records")
+			}
+		case viaTwice:
+			c.Inc("unscoped_steps_through_unscoped_twice")
 		}
 		// snapshot used to attribute a deviation to a known class counterfactually
 		snap := k.snapshot()
@@ -1483,6 +1561,30 @@ func (k *kase) sig(st *step, ps []problem, sn *snapshot, applied bool) string {
 		return true
 	}
 	stored := s.readLinks()
+	if applied && st.via == viaSibling && !st.unscoped && s.deletesRecords() && only("records") && sameLinks(k.m.links, stored) {
+		// counterfactual: the scoped call behaved like the Unscoped() variant that was derived from its
+		// handle - the links are right, and the records that are gone (or soft-deleted) are records
+		// whose link to an owner of the call this very call removed
+		unlinked := map[string]bool{}
+		for _, ov := range st.owners {
+			for t := range sn.links[ov.ok] {
+				if !k.m.links[ov.ok][t] {
+					unlinked[t] = true
+				}
+			}
+		}
+		recs := s.readRecs()
+		lost, within := 0, true
+		for t := range k.m.recs {
+			if r, ok := recs[t]; !ok || r.soft {
+				lost++
+				within = within && unlinked[t]
+			}
+		}
+		if lost > 0 && within {
+			return "scoped-call-deletes-records-after-unscoped-variant-was-derived-from-its-handle:" + s.name + ":" + st.op
+		}
+	}
 	if applied && s.store == joinRows && st.op == "Replace" && st.sliceLvl {
 		// counterfactual: the clean-up keeps every join row whose target occurs in ANY argument
 		all := map[string]bool{}
@@ -1622,6 +1724,9 @@ func (k *kase) sig(st *step, ps []problem, sn *snapshot, applied bool) string {
 	}
 	if st.unscoped {
 		parts = append(parts, "unscoped")
+	}
+	if st.via == viaTwice && only("records") {
+		parts = append(parts, "unscoped-twice")
 	}
 	if st.sliceLvl {
 		parts = append(parts, "owner-slice")
